@@ -97,7 +97,15 @@ CONSUME_OK = {
 # wait sets behind "children still in flight" consume entries: (module, function, variable)
 WAIT_VARS = [("stabilize.handlers.complete_stage.handler", "CompleteStageHandler._handle_with_retry.on_stage", "in_flight_children")]
 CONSUME_MODE = {"CompleteStageHandler": "ret", "JumpToStageHandler": "ret"}      # full condition set too large: early-return tests only
-CONSUME_UNDECIDED = {"StartStageHandler": "condition set too large to enumerate; its consume branches are covered by C04/C11 (claim loser, refused claim) and C05.R5",
+CONSUME_OK["StartStageHandler"] = [      # examined in the thorough tier only (enumeration ~1.5 min)
+    ({"fresh_stage is None"}, "the stage disappeared between two reads: nothing to start"),
+    ({"readiness.phase == PredicatePhase.READY", "!stage.status == WorkflowStatus.RUNNING"}, MOOT + " (neither NOT_STARTED nor RUNNING)"),
+    ({"!readiness.phase == PredicatePhase.READY", "!readiness.phase == PredicatePhase.SKIP"}, "NOT_READY with an upstream still active: that upstream's completion pushes StartStage again (C05.R2), polling stops by design"),
+    ({"stage.status == WorkflowStatus.RUNNING", "has_tasks"}, "duplicate StartStage for a stage that is already planned: its tasks carry it on"),
+    ({"stage.status == WorkflowStatus.RUNNING", "has_synthetic"}, "duplicate StartStage for a stage whose synthetic children are planned: they carry it on"),
+]
+CONSUME_THOROUGH = {"StartStageHandler": "ret"}
+CONSUME_UNDECIDED = {"StartStageHandler": "condition set too large for the quick tier (decided in the thorough tier); its consume branches are also covered by C04/C11 (claim loser, refused claim) and C05.R5",
                      "RunTaskHandler": "condition set too large to enumerate; covered by C05.R5 (no silent RUNNING) and C02.R3"}
 
 
@@ -110,12 +118,12 @@ def _r6(ctx, rep) -> None:
         name = h.cls.name
         if h.marker:
             continue
-        if name in CONSUME_UNDECIDED:
+        if name in CONSUME_UNDECIDED and not (rep.tier == "thorough" and name in CONSUME_THOROUGH):
             rep.undecided.append(f"C05.R6 for {name}: {CONSUME_UNDECIDED[name]}")
             continue
         entries = CONSUME_OK.get(name)
         try:
-            cps, n = consume_paths(ctx, h, CONSUME_MODE.get(name, "all"))
+            cps, n = consume_paths(ctx, h, CONSUME_THOROUGH.get(name) or CONSUME_MODE.get(name, "all"))
         except AnalysisError as e:
             rep.error(f"C05.R6 {name}: {e}")
             continue
